@@ -38,6 +38,7 @@ theorem C07_first_window_aligned (now period a : Int) (h : (now - a) % period = 
   windowEnd_eq_of_aligned now period a h
 
 example : (calculateWindowEnd 1700000000583333 1000000 (some 0)).1 = 1700000002000000 := by decide
+example : ((1700000000000000 : Int) - 0) % 1000000 = 0 ∧ (0 : Int) < 1000000 := by decide
 example : (calculateWindowEnd (-2500000) 1000000 (some 7000000)).1 = -1000000 := by decide
 
 /-- The hand-aligned timer is first due exactly when the wall clock reaches the first window end
